@@ -80,6 +80,9 @@ type PodDef struct {
 	// Expect is what the property text prescribes for this pod given the static configuration.
 	Expect     []ExpNet
 	ExpectFail bool   // the annotation names a network that is not configured: ADD must fail without invoking anything
+	NContainers int   // containers of the pod (1-3)
+	ENIOn      int    // index of the container that carries the ENI-IP resource request (WantENI)
+	CommonArgs map[string]string // common.* of the args annotation: key -> raw JSON text, handed to every network's plugin
 	KubeIf     string // the interface name kubelet passes in CNI_IFNAME for this pod's sandboxes
 	Hostile    bool   // C18: carries hostile annotations or ports
 	AnnForm    string // "none", "list", "json"
@@ -276,6 +279,8 @@ func genPod(c *core.Choices, cfg *Config, idx int, withPorts bool) *PodDef {
 	}
 	p.WantENI = c.Prob(1, 4)
 	p.KubeIf = pick(c, []string{"eth0", "eth0", "eth0", "ens5", "enp0s3"})
+	p.NContainers = 1 + c.Choose(3)
+	p.ENIOn = c.Choose(p.NContainers) // app first and sidecar last, or the other way round
 	type sel struct{ net, ifname string }
 	var sels []sel
 	switch c.Choose(5) {
@@ -367,7 +372,13 @@ func genPod(c *core.Choices, cfg *Config, idx int, withPorts bool) *PodDef {
 	}
 	if c.Prob(1, 3) {
 		// extended CNI args (opaque for this world; C13 checks their content)
-		p.Annotations[annArgs] = fmt.Sprintf(`{"common":{"ipinfos":[{"ip":"10.%d.0.%d/24","vlan":%d,"gateway":"10.%d.0.1"}]}}`, 50+idx, 2+idx, c.Choose(3), 50+idx)
+		ipinfos := fmt.Sprintf(`[{"ip":"10.%d.0.%d/24","vlan":%d,"gateway":"10.%d.0.1"}]`, 50+idx, 2+idx, c.Choose(3), 50+idx)
+		p.Annotations[annArgs] = `{"common":{"ipinfos":` + ipinfos + `}}`
+		p.CommonArgs = map[string]string{"ipinfos": ipinfos}
+		if c.Prob(1, 3) {
+			p.Annotations[annArgs] = `{"common":{"ipinfos":` + ipinfos + `,"zone":"\"az-1\""}}`
+			p.CommonArgs["zone"] = `"\"az-1\""`
+		}
 	}
 	if withPorts {
 		genPorts(c, cfg, p)
@@ -535,6 +546,10 @@ func genLeftovers(c *core.Choices, cfg *Config) {
 				}
 				cfg.Files = append(cfg.Files, FileDef{Path: d + "/" + lo.ID, Data: data})
 			}
+		}
+		if c.Prob(1, 3) {
+			// an IPv6 reservation of the same container
+			cfg.Files = append(cfg.Files, FileDef{Path: fmt.Sprintf("%s/fd00::8:%x", ipDirs[c.Choose(2)], 16+i), Data: lo.ID + "\neth0"})
 		}
 		if c.Prob(2, 3) {
 			sep := pick(c, []string{"\n", "\r\n", ""})
